@@ -19,7 +19,8 @@ def main(p):
         return out
     pkg = lib.pkg
     tp = a['proto_package']
-    other = importlib.import_module('acme.other.v1.common_pb2')
+    subpkg = importlib.import_module(a['sub_package']) if a.get('sub_package') else None
+    other = importlib.import_module('acme.other.v1.common_pb2') if subpkg is None else None
 
     # kind -> variant -> (python value factory, apply(dyn))
     def api_values(kind, variant):
@@ -59,12 +60,13 @@ def main(p):
 
     def dep_values(kind, variant):
         t = variant == TYPICAL
+        Money = subpkg.Money if subpkg is not None else other.Money
         table = {
             'string': ('abc' if t else '', lambda m: setattr(m, 'name', 'abc' if t else '')),
             'int': (5 if t else 0, lambda m: setattr(m, 'count', 5 if t else 0)),
             'rstr': (['x', 'y'] if t else [], lambda m: m.tags.extend(['x', 'y'] if t else [])),
             'mss': ({'k': 'v'} if t else {}, (lambda m: m.attrs.update({'k': 'v'})) if t else (lambda m: None)),
-            'msg': (other.Money(units=3) if t else other.Money(),
+            'msg': (Money(units=3) if t else Money(),
                     (lambda m: setattr(m.money, 'units', 3)) if t else (lambda m: m.money.SetInParent())),
             'bool': (t, lambda m: setattr(m, 'flag', t)),
         }
@@ -120,6 +122,8 @@ def main(p):
         return forms if len(cell['kinds']) == 1 else [forms[k % 4]]
 
     def request_object(cell, exp):
+        if cell['dep'] == 'sub':
+            return subpkg.FlatRequest.deserialize(exp.SerializeToString())
         if cell['dep']:
             return other.FlatRequest.FromString(exp.SerializeToString())
         return pkg.Req.deserialize(exp.SerializeToString())
@@ -145,8 +149,8 @@ def main(p):
         else:
             out['outcomes']['ok'] = out['outcomes'].get('ok', 0) + 1
 
-    Resp = p.cls(f'.{tp}.Resp')
-    reply = Resp(ok=True).SerializeToString()
+    Resp = p.cls(a['cells'][0].get('resp') or f'.{tp}.Resp') if a['cells'] else None
+    reply = Resp(ok=True).SerializeToString() if Resp else b''
 
     def drive_sync():
         clients = {}
